@@ -85,13 +85,39 @@ def lookalike_key_cases(draw):
             'family': draw(st.sampled_from(['json', 'builder', 'pydiff']))}
 
 
+COLLIDING = [-1, -2, 0, False, None, '', 0.0, 1, True, 1.0, 2 ** 61 - 1 + 5, 5, 'a']      # several share a Python hash
+
+
+@st.composite
+def colliding_swap_cases(draw):
+    """lists whose elements differ only by values that hash alike (-1 / -2, 0 / False / '' / None, 1 / True, n / n + 2**61-1),
+    bare or wrapped in a one-key mapping: swapping two of them is a change"""
+    wrap = draw(st.booleans())
+    vals = draw(st.lists(st.sampled_from(COLLIDING), min_size=2, max_size=4))
+    a = [{'id': v} for v in vals] if wrap else list(vals)
+    i = draw(st.integers(0, len(a) - 1))
+    j = draw(st.integers(0, len(a) - 1))
+    sw = None
+    if i != j and loose(a[i]) != loose(a[j]):
+        sw = list(a)
+        sw[i], sw[j] = sw[j], sw[i]
+    b = draw(st.sampled_from([a, sw or a, a[::-1]]))
+    if draw(st.booleans()):
+        a, b, sw = {'w': a}, {'w': b}, ({'w': sw} if sw is not None else None)
+    ds, le = draw(gen.options)
+    return {'a': a, 'b': b, 'a2': shuffled(draw, a), 'b2': shuffled(draw, b), 'swapped': sw, 'ds': ds, 'le': le,
+            'family': draw(st.sampled_from(['json', 'json', 'builder']))}
+
+
 @st.composite
 def cases(draw, max_leaves, max_width):
-    k = draw(st.integers(0, 7))
+    k = draw(st.integers(0, 8))
     if k == 0:
         return draw(numeric_key_cases())
     if k <= 2:
         return draw(lookalike_key_cases())
+    if k == 3:
+        return draw(colliding_swap_cases())
     a, b = draw(gen.doc_pairs(max_leaves, max_width))
     ds, le = draw(gen.options)
     a2, b2 = shuffled(draw, a), shuffled(draw, b)
